@@ -78,13 +78,22 @@ func DeepSourcesOpt(p *Prog, v ssa.Value, o DeepOpts) *Sources {
 // DeepSourcesOfField: the sources of field fv of the struct value (or pointee) v.
 func DeepSourcesOfField(p *Prog, v ssa.Value, fv *types.Var) *Sources {
 	w := &deepWalker{p: p, s: newSources(), seen: map[string]bool{}, callers: p.staticCallers()}
-	if st, ok := Deref(v.Type()).Underlying().(*types.Struct); ok {
+	var find func(t types.Type, prefix []int, depth int)
+	find = func(t types.Type, prefix []int, depth int) {
+		st, ok := Deref(t).Underlying().(*types.Struct)
+		if !ok || depth > 3 {
+			return
+		}
 		for i := 0; i < st.NumFields(); i++ {
+			sel := append(append([]int{}, prefix...), i)
 			if st.Field(i) == fv {
-				w.val(v, []int{i}, nil, 0)
+				w.val(v, sel, nil, 0)
+			} else if _, isStruct := st.Field(i).Type().Underlying().(*types.Struct); isStruct {
+				find(st.Field(i).Type(), sel, depth+1) // nested struct value (not through pointers)
 			}
 		}
 	}
+	find(v.Type(), nil, 0)
 	return w.s
 }
 
@@ -318,7 +327,11 @@ func (w *deepWalker) param(x *ssa.Parameter, sel []int, ctx *deepCtx, depth int,
 		return
 	}
 	if f.Parent() != nil {
-		return // parameters of closures: invoked dynamically, leaf
+		// a closure: only its direct calls (a local helper `respond := func(…)`, called by name) are known call sites
+		for _, call := range w.callers[f] {
+			follow(call, nil)
+		}
+		return
 	}
 	if len(sel) == 0 && !asAddr {
 		// an unselected parameter is itself the interesting leaf for most rules; callers are followed only for
